@@ -18,6 +18,8 @@ idx = {idx}
 W.observe("start", idx, em.get_ident())
 kind = {kind!r}
 try:
+    if kind == "sleep1":
+        em.sleep(1.0)              # ends exactly when the 1 s grace wait of an overlapping submission expires
     if kind == "block":
         channel.receive()          # released by the initiator
     if kind == "raise":
@@ -116,6 +118,15 @@ class MtoScn:
         for idx, (kind, mode) in enumerate(P["hist"]):
             if mode == "overlap":
                 ov = [e for e in obs if e[0] == "overlap" and e[1] == idx]
+                prevkind = P["hist"][idx - 1][0]
+                if prevkind == "sleep1":
+                    # the earlier body ends at the very instant the grace wait expires: the submission is
+                    # either refused with the documented error or runs after the earlier body
+                    refused = bool(ov) and ov[0][2] == "RemoteError" and DT in ov[0][3]
+                    ran = bool(ov) and ov[0][2] == "ran" and idx in started
+                    if not (refused or ran) or (refused and idx in started):
+                        return V("overlap-outcome", f"remote_exec {idx} racing with the end of the earlier body: {ov}, started={started}")
+                    continue
                 if not ov or ov[0][2] != "RemoteError" or DT not in ov[0][3]:
                     return V("overlap-not-refused", f"remote_exec {idx} issued while an earlier body was running: {ov}")
                 if idx in started:
@@ -147,7 +158,7 @@ def histories(tier):
             # an overlapping submission directly follows a "block" body
             opts = []
             for i, k in enumerate(ks):
-                if i > 0 and ks[i - 1] == "block":
+                if i > 0 and ks[i - 1] in ("block", "sleep1"):
                     opts.append(("seq", "overlap"))
                 else:
                     opts.append(("seq",))
@@ -157,6 +168,9 @@ def histories(tier):
     if tier == "quick":
         # all histories of length <= 2, and length 3 restricted to those with a failing middle or an overlap
         hs = [h for h in hs if len(h) <= 2 or (h[1][0] in ("raise", "sysexit", "kbi") and h[0][0] in ("ret", "block") and h[2][0] in ("ret", "raise")) or any(m == "overlap" for _, m in h) and h[2][0] in ("ret",) and h[0][0] == "block"]
+    # the grace wait of an overlapping submission expiring exactly when the earlier body ends
+    for tail in (["ret"], ["ret", "ret"], ["raise", "ret"]):
+        hs.append([("sleep1", "seq"), ("ret", "overlap")] + [(k, "seq") for k in tail])
     return hs
 
 
@@ -175,7 +189,8 @@ def run(tier: str, only=None) -> int:
         if i % 7 == 0:
             rep.sample({"sub": name, "params": P})
         deep = len(H) <= 2
-        harness.run_exploration(rep, PID, name + "/sync", MtoScn, P, ({"ps": 2, "free": 1} if deep else {"ps": 1, "free": 0}) if tier == "quick" else {"ps": 2, "free": 1}, max_execs=cap)
+        tie = any(k == "sleep1" for k, _ in H)  # timer ties are picks at blocking points: need free >= 1
+        harness.run_exploration(rep, PID, name + "/sync", MtoScn, P, ({"ps": 2, "free": 1} if deep or tie else {"ps": 1, "free": 0}) if tier == "quick" else {"ps": 2, "free": 2 if tie else 1}, max_execs=cap)
         if deep or tier == "thorough":
             harness.run_exploration(rep, PID, name + "/stmt", MtoScn, P, {"ps": 0, "pl": 1, "free": 0}, stmt=stmt, max_execs=cap)
     return rep.finish()
